@@ -36,7 +36,14 @@ QS = [p + ":1" for p in Q_PREFIXES] + [u + "1" for u in Q_URIS] + ["", "nodelim"
 
 
 def snap(conv):
-    return snapshot(conv, QS, Q_PREFIXES)
+    c, v, a = snapshot(conv, QS, Q_PREFIXES)
+    # the records list and the bimap are observable in their order too
+    order = (tuple(rec_key_ordered(r) for r in conv.records), tuple(conv.bimap.items()), tuple(conv.reverse_bimap.items()))
+    return ((c, order), v, a)
+
+
+def rec_key_ordered(r):
+    return (r.prefix, r.uri_prefix, tuple(r.prefix_synonyms), tuple(r.uri_prefix_synonyms), r.pattern)
 
 
 def derivations(model, other_idx):
@@ -130,10 +137,20 @@ def do_step(world, step, out_name):
     return out_name, None
 
 
+def make_conv(recs, incremental):
+    if not incremental:
+        return Converter([to_record(r) for r in recs])
+    conv = Converter([])     # built incrementally, in reverse order: the records list is not sorted
+    for r in reversed(recs):
+        conv.add_record(to_record(r))
+    return conv
+
+
 def make_world(case):
-    world = {"c1": Converter([to_record(r) for r in recs_from_json(case["c1"])])}
+    inc = case.get("incremental", False)
+    world = {"c1": make_conv(recs_from_json(case["c1"]), inc)}
     for name, recs in case.get("others", {}).items():
-        world[name] = Converter([to_record(r) for r in recs_from_json(recs)])
+        world[name] = make_conv(recs_from_json(recs), inc)
     return world
 
 
@@ -189,6 +206,13 @@ def expand_input(idx, ctx, only=None):
             continue
         others = {n: base["others"][n] for n in (d["src"] if isinstance(d["src"], list) else []) if n != "c1"}
         case1 = {"c1": base["c1"], "others": others, "steps": [d]}
+        # the same derivation on inputs that were built incrementally (their records list is not in sorted order)
+        case1i = dict(case1, incremental=True)
+        fi = run_history(case1i, ctx)
+        report(ctx, case1i, fi)
+        if not fi:
+            ctx.count("validated")
+            ctx.count("derivations_on_incrementally_built_inputs")
         fails, world = run_history(case1, ctx, want_world=True)
         report(ctx, case1, fails)
         if fails or "d1" not in world:
@@ -268,4 +292,4 @@ def describe(tier):
 
 
 def required_counters(tier):
-    return ["validated", "derived_actually_mutated", "second_level_derivations", "steps_rejected"] + [f"derivations_{k}" for k in ("chain", "sub", "remap_curie", "remap_uri", "rewire", "discover")]
+    return ["validated", "derivations_on_incrementally_built_inputs", "derived_actually_mutated", "second_level_derivations", "steps_rejected"] + [f"derivations_{k}" for k in ("chain", "sub", "remap_curie", "remap_uri", "rewire", "discover")]
